@@ -86,11 +86,16 @@ func coResume(L *LState) int {
 	L.G.CurrentThread = th
 	func() {
 		started, thtop := th.isStarted(), th.reg.Top()
+		var first callFrame
+		if !started {
+			first = *th.stack.Last() // initCallFrame moves LocalBase of a vararg frame before it can fail
+		}
 		defer func() {
 			if rcv := recover(); rcv != nil {
 				// the arguments did not fit into the coroutine's registry: it was not
 				// resumed, so it must not stay registered as the running thread
 				if !started {
+					*th.stack.Last() = first
 					th.currentFrame = nil
 				}
 				th.reg.SetTop(thtop)
